@@ -62,12 +62,12 @@ def stochasticPostL {L : Type} (led : Ledger L) (t : Nat) (s : Net × L) : (Net 
   (((liftOp s.1 (s.1.post (led.full l'))).1, l'), (liftOp s.1 (s.1.post (led.full l'))).2)
 
 /-- the ledger of `EV` (ev.py:100-112): energy delivered so far per session; an EV that sits on a
-    station receives `rate t net x` in period `t` (whatever the scheduler and the battery make of
-    it), and is fully charged when `requested - delivered ≤ eps` (`not (remaining_demand > 1e-3)`) -/
+    station receives `rate t net delivered x` in period `t` (whatever the scheduler and the battery
+    make of it, possibly looking at the ledger), and is fully charged when `requested - delivered ≤ eps` (`not (remaining_demand > 1e-3)`) -/
 def energyLedger {K : Type} [Add K] [Sub K] [LT K] [DecidableLT K] (requested : Sess → K)
-    (rate : Nat → Net → Sess → K) (eps : K) : Ledger (Sess → K) where
+    (rate : Nat → Net → (Sess → K) → Sess → K) (eps : K) : Ledger (Sess → K) where
   charge := fun t s d x =>
-    if s.stations.any (fun st => s.occ st == some x) then d x + rate t s x else d x
+    if s.stations.any (fun st => s.occ st == some x) then d x + rate t s d x else d x
   full := fun d x => !decide (eps < requested x - d x)
 
 end Acn.Stoch
